@@ -40,6 +40,9 @@ def types_pool():
 
     return [
         ("int", lambda: Type(PQName([FundamentalSpecifier("int")]))),
+        ("std::tuple<Ts..., int, 3>", lambda: Type(PQName([NameSpecifier("std"), NameSpecifier("tuple", TemplateSpecialization([
+            TemplateArgument(Type(PQName([NameSpecifier("Ts")])), param_pack=True), TemplateArgument(Type(PQName([FundamentalSpecifier("int")]))),
+            TemplateArgument(val("3"))]))]))),
         ("const unsigned long", lambda: Type(PQName([FundamentalSpecifier("unsigned long")]), const=True)),
         ("ns::T", lambda: Type(PQName([NameSpecifier("ns"), NameSpecifier("T")]))),
         ("std::vector<int>*", lambda: Pointer(Type(PQName([NameSpecifier("std"), NameSpecifier("vector", TemplateSpecialization([TemplateArgument(Type(PQName([FundamentalSpecifier("int")])))]))])))),
@@ -67,7 +70,7 @@ def form_variable(ch, u):
     from cxxheaderparser.types import Variable, Array, Pointer
 
     tp = types_pool()
-    tsrc, tmk = tp[ch.pick(lim(len(tp), 4))]
+    tsrc, tmk = tp[ch.pick(lim(len(tp), 3))]
     spec = ch.pick(6)
     specs = [[], ["static"], ["extern"], ["inline", "constexpr"], ["static", "constexpr"], ["extern", '"C"']][spec]
     flags = dict(static="static" in specs, extern="extern" in specs, inline="inline" in specs, constexpr="constexpr" in specs)
@@ -300,11 +303,11 @@ def deco_ok(form, deco, src):
 
 def build_one(ch, u):
     form = FORMS[ch.pick(len(FORMS))]
-    src, objs, extra = form(ch, u)
     if DECO_MODE == 0 and not PAIRS:
         deco = ""
     else:
         deco = DECOS[ch.pick(len(DECOS))]
+    src, objs, extra = form(ch, u)
     if not deco_ok(form, deco, src):
         return None
     return deco + src, objs, extra
@@ -545,11 +548,11 @@ def run(tier):
         tw = chrun.run(__name__, "h_decl", [(0, 0)], timeout=60, globs=dict(TWIN=True), pool=pool)
         chrun.record(ck, tw, "declaration grammar reachability twin", expect="refuted")
         lv = 0 if tier == "quick" else 1
-        shards = [(a, b, c) for a in range(len(SCOPES)) for b in range(len(FORMS)) for c in range(6)]
+        shards = [(a, b) for a in range(len(SCOPES)) for b in range(len(FORMS))]
         r1 = chrun.run(__name__, "h_decl", shards, timeout=(250 if tier == "quick" else 1800), globs=dict(LEVEL=lv, DECO_MODE=0), pool=pool)
         chrun.record(ck, r1, "every single declaration of the grammar in every scope: result == expected ParsedData, field types conform",
                      bound=f"{len(FORMS)} forms x variations x {len(SCOPES)} scopes")
-        shards = [(0, b, c) for b in range(len(FORMS)) for c in range(6) if b > 1] + [(0, b, c, d) for b in (0, 1) for c in range(6) for d in range(6)]
+        shards = [(0, b, d) for b in range(len(FORMS)) for d in range(len(DECOS))]
         r1b = chrun.run(__name__, "h_decl", shards, timeout=(250 if tier == "quick" else 1800), globs=dict(LEVEL=lv, DECO_MODE=1), pool=pool)
         chrun.record(ck, r1b, "every single declaration with every ignored decoration before it (global scope)", bound=f"{len(FORMS)} forms x variations x {len(DECOS)} decorations")
         r2 = None
